@@ -34,11 +34,14 @@ VLess(u, v) == IF u = <<>> THEN FALSE ELSE IF Head(u) # Head(v) THEN Head(u) < H
 MMul(A, B) == [i \in 1..4 |-> [j \in 1..4 |-> A[i][1] * B[1][j] + A[i][2] * B[2][j] + A[i][3] * B[3][j] + A[i][4] * B[4][j]]]
 MVec(A, v) == [i \in 1..4 |-> A[i][1] * v[1] + A[i][2] * v[2] + A[i][3] * v[3] + A[i][4] * v[4]]
 MT(A) == [i \in 1..4 |-> [j \in 1..4 |-> A[j][i]]]
-(* M * X = I to 1e-9, X given as 12-digit fixed point split in two signed halves: x = (hi * 10^6 + lo) / 10^12 *)
-InvOk(M, Xhi, Xlo) ==
+(* M * X = I to 1e-9.  X is given as 12-digit fixed point split in two signed halves: x = (hi * 10^6 + lo) / 10^12;
+   M = Mi + Mf * 10^-7 with small integer matrices Mi (ordinary entries) and Mf (tiny couplings).  In units of 10^-12 the
+   tiny part contributes mf * (hi * 10^6 + lo) * 10^-7 = mf * hi / 10 (+ less than 2), evaluated with integer division. *)
+InvOk(M, Mf, Xhi, Xlo) ==
   \A i \in 1..4, j \in 1..4 :
      LET A == M[i][1] * Xhi[1][j] + M[i][2] * Xhi[2][j] + M[i][3] * Xhi[3][j] + M[i][4] * Xhi[4][j]
          B == M[i][1] * Xlo[1][j] + M[i][2] * Xlo[2][j] + M[i][3] * Xlo[3][j] + M[i][4] * Xlo[4][j]
+         F == Mf[i][1] * Xhi[1][j] + Mf[i][2] * Xhi[2][j] + Mf[i][3] * Xhi[3][j] + Mf[i][4] * Xhi[4][j]
          A1 == A - (IF i = j THEN 1000000 ELSE 0) IN
-     Abs(A1) <= 1000 /\ Abs(A1 * 1000000 + B) <= 1000 + 4 * 20
+     Abs(A1) <= 1000 /\ Abs(A1 * 1000000 + B + TruncDiv(F, 10)) <= 1000 + 4 * 20 + 12
 =============================================================================
